@@ -238,12 +238,29 @@ def pdhg_instances(ctx):
             nn_ = len(a_)
             out.append({"id": len(out) + 1, "fam": fam, "theta": th, "cap": 3, "a": a_, "y": y_, "g": g, "lam": lam_, "lo": Fr(-1, 2), "hi": Fr(1),
                         "tau": [tau_] * nn_, "sigma": [Fr(1)] * nn_, "start": "zero", "arr": False, "x0": [Fr(0)] * nn_, "u0": [Fr(0)] * nn_})
+    # con family: the problem L2ConstrainedMinimization hands to the solver, one interval per component
+    nb = len(out)
+    for k in range(60 if ctx.thorough else 24):
+        n = 1 if k % 3 else 2
+        g = ["l1", "sq"][k % 2]
+        a = [Fr(rng.choice([1, 2, -1])) for _ in range(n)]
+        eps = [Fr(1, 2), Fr(1)][(k // 2) % 2]
+        y = [Fr(v) for v in (rng.choice([v for v in (-3, -1, 0, 2, 4) if abs(v) != eps]) for _ in range(n))]
+        sig = [Fr(1)] * n
+        tau = [Fr(1) / max(v * v for v in a) * [1, Fr(1, 2)][(k // 4) % 2]] * n
+        start = ["zero", "given", "saddle"][(k // 3) % 3]
+        inst = {"id": nb + k + 1, "fam": "con", "theta": [Fr(1), Fr(1), Fr(0), Fr(1, 2)][(k // 5) % 4], "cap": 3, "a": a, "y": y, "g": g, "lam": Fr(rng.choice([1, 3])), "lo": Fr(-1, 2), "hi": Fr(1),
+                "eps": eps, "tau": tau, "sigma": sig, "start": start, "arr": False,
+                "x0": [Fr(rng.choice([-1, 0, 2])) for _ in range(n)] if start == "given" else [Fr(0)] * n, "u0": [Fr(0)] * n}
+        out.append(inst)
+    for i_ in out:
+        i_.setdefault("eps", Fr(1))
     return out
 
 
 def pdhg_tla(i):
-    return ("[id |-> %d, fam |-> \"%s\", theta |-> %s, cap |-> %d, a |-> %s, y |-> %s, g |-> \"%s\", lam |-> %s, lo |-> %s, hi |-> %s, tau |-> %s, sigma |-> %s, x0 |-> %s, u0 |-> %s, start |-> \"%s\"]"
-            % (i["id"], i["fam"], rat(i["theta"]), i["cap"], vec(i["a"]), vec(i["y"]), i["g"], rat(i["lam"]), rat(i["lo"]), rat(i["hi"]), vec(i["tau"]), vec(i["sigma"]), vec(i["x0"]), vec(i["u0"]), i["start"]))
+    return ("[id |-> %d, fam |-> \"%s\", theta |-> %s, cap |-> %d, a |-> %s, y |-> %s, g |-> \"%s\", lam |-> %s, lo |-> %s, hi |-> %s, eps |-> %s, tau |-> %s, sigma |-> %s, x0 |-> %s, u0 |-> %s, start |-> \"%s\"]"
+            % (i["id"], i["fam"], rat(i["theta"]), i["cap"], vec(i["a"]), vec(i["y"]), i["g"], rat(i["lam"]), rat(i["lo"]), rat(i["hi"]), rat(i["eps"]), vec(i["tau"]), vec(i["sigma"]), vec(i["x0"]), vec(i["u0"]), i["start"]))
 
 
 # ------------------------------------------------------------------ TLC
@@ -608,6 +625,28 @@ def replay_pdhg(sp, r, insts, states):
         if inst["fam"] == "tv":
             alg = sp.alg.PrimalDualHybridGradient(sp.prox.Conj(sp.prox.L1Reg([nn], lam)), sp.prox.L2Reg([nn], 1, y=y), Aop, AHop, x, u, tau, sig,
                                                   theta=theta, max_iter=max_iter, tol=0)
+        elif inst["fam"] == "con":
+            eps = float(inst["eps"])
+            ball = sp.prox.L2Proj([1], eps, y=y) if nn == 1 else sp.prox.Stack([sp.prox.L2Proj([1], eps, y=y[j:j + 1]) for j in range(nn)])
+            alg = sp.alg.PrimalDualHybridGradient(sp.prox.Conj(ball), pg, Aop, AHop, x, u, tau, sig, theta=theta, max_iter=max_iter, tol=0)
+            if nn == 1 and theta == 1.0 and max_iter >= 1:
+                # the same problem through the application: it owns the dual variable (zeros) and builds Conj(L2Proj) itself
+                xa = fl(s0["x"])
+                try:
+                    app = sp.app.L2ConstrainedMinimization(sp.linop.Multiply([1], a), y, pg, eps, x=xa, tau=tau, sigma=sig, max_iter=max_iter, show_pbar=False)
+                    xr = app.run()
+                except Exception as e:
+                    if not core.raised_in_code_under_test():
+                        raise
+                    viol(r, "app_raises", "L2ConstrainedMinimization", inst, "L2ConstrainedMinimization(a=%s, y=%s, eps=%s) raised %r" % (a, y, eps, e))
+                else:
+                    mfin = want[min(last_iter, app.alg.iter)]
+                    n += 1
+                    if xr is not xa:
+                        viol(r, "held_solution", "L2ConstrainedMinimization", inst, "run() does not return the caller's x array")
+                    if np.allclose(fl(s0["u"]), 0) and not (app.alg.iter in want and close(xr, fl(mfin["x"])) and close(app.alg.u, fl(mfin["u"]))):
+                        viol(r, "state", "L2ConstrainedMinimization", inst, "g=%s a=%s y=%s eps=%s tau=%s: run() stopped after %d updates at (x, u) = (%s, %s), model after as many updates (%s, %s)"
+                             % (inst["g"], a, y, eps, tau, app.alg.iter, xr, app.alg.u, fl(mfin["x"]), fl(mfin["u"])))
         else:
             alg = sp.alg.PrimalDualHybridGradient(sp.prox.L2Reg([nn], 1, y=-y), pg, Aop, AHop, x, u, tau, sig, theta=theta, max_iter=max_iter, tol=0)
         key_args = "fam=%s theta=%s " % (inst["fam"], theta) + "g=%s a=%s y=%s tau=%s sigma=%s start=%s" % (inst["g"], a, y, tau, sig, inst["start"])
@@ -658,7 +697,7 @@ def run(ctx):
         ("ALM", alm_instances, alm_tla, mi, ["MultipliersNonNegative", "FixedPointIsKKT", "KKTIsFixed", "DualDistanceNonIncreasing", "UnusedMultipliersUntouched"], ["CounterOnlyOnDual", "Terminates"], replay_alm),
         ("AltMin", altmin_instances, altmin_tla, mi, ["FixedPointIsMinimiser", "MinimiserIsFixed"], ["ObjectiveNonIncreasing", "Contraction", "CounterOnlyOnMin2", "Terminates"], replay_altmin),
         ("Newton", newton_instances, newton_tla, [0, 1, 2, 3], ["EarlyStopIsStationary", "ExactStepSolves", "RaisedOnlyOnAscent"], ["SearchEnds", "Terminates", "ArmijoOnAccept", "Descent", "AcceptedStepLength", "CounterOnlyOnAccept"], replay_newton),
-        ("PDHG", pdhg_instances, pdhg_tla, [0, 1, 2, 3, 4], ["SaddleIsFixed", "EarlyStopIsSaddle", "EarlyStopIsFixed"], ["FejerMonotone", "CounterByOne", "Terminates"], replay_pdhg),
+        ("PDHG", pdhg_instances, pdhg_tla, [0, 1, 2, 3, 4], ["SaddleIsFixed", "FeasibleSaddle", "EarlyStopIsSaddle", "EarlyStopIsFixed"], ["FejerMonotone", "CounterByOne", "Terminates"], replay_pdhg),
         ("GerchbergSaxton", gs_instances, gs_tla, [0, 1, 3, 4], ["EarlyStopIsFixedPoint", "ResidualIsOfHeldX"], ["ErrorReduction", "CounterByOne", "Terminates"], replay_gs),
     ]
     for module, gen, to_tla, mis, invs, props, rep in jobs:
